@@ -25,6 +25,10 @@ pub struct ToCase {
     pub first_poll_delay: u64,
     /// inner's poll_ready is pending for this long before the call
     pub ready_delay: u64,
+    /// the future is first polled under one waker (a probe with a no-op waker, as a `select!` round
+    /// or `poll!` on another task would do) and completed under another (the awaiting task's)
+    #[serde(default)]
+    pub migrate: bool,
 }
 
 #[derive(Default, Debug)]
@@ -145,7 +149,24 @@ impl Engine for ToEngine {
             if c.first_poll_delay > 0 {
                 tokio::time::sleep(Duration::from_millis(c.first_poll_delay)).await;
             }
-            let guard = tokio::time::timeout(Duration::from_secs(3600), fut).await;
+            let mut fut = Box::pin(fut);
+            let probed = if c.migrate {
+                let w = futures_util::task::noop_waker();
+                let mut cx = std::task::Context::from_waker(&w);
+                match fut.as_mut().poll(&mut cx) {
+                    std::task::Poll::Ready(r) => Some(r),
+                    std::task::Poll::Pending => None,
+                }
+            } else {
+                None
+            };
+            let guard = match probed {
+                Some(r) => {
+                    drop(fut);
+                    Ok(r)
+                }
+                None => tokio::time::timeout(Duration::from_secs(3600), fut).await,
+            };
             let resolved = t0.elapsed().as_millis() as u64;
             *outer_done.lock().unwrap() = true;
             // let time pass: nothing of the inner work may run any more
@@ -246,7 +267,7 @@ pub fn exhaustive() -> Vec<ToCase> {
             for inner_ok in [true, false] {
                 for first_poll_delay in [0u64, 5, 10, 25, 60] {
                     for ready_delay in [0u64, 7] {
-                        v.push(ToCase { dur, inner_at, inner_ok, first_poll_delay, ready_delay });
+                        v.push(ToCase { dur, inner_at, inner_ok, first_poll_delay, ready_delay, migrate: v.len() % 3 == 1 });
                     }
                 }
             }
@@ -263,13 +284,15 @@ pub fn strategy() -> impl proptest::strategy::Strategy<Value = ToCase> {
         any::<bool>(),
         prop_oneof![2 => Just(0u64), 1 => 1u64..250],
         prop_oneof![3 => Just(0u64), 1 => 1u64..30],
+        prop_oneof![2 => Just(false), 1 => Just(true)],
     )
-        .prop_map(|(dur, inner_at, inner_ok, first_poll_delay, ready_delay)| ToCase {
+        .prop_map(|(dur, inner_at, inner_ok, first_poll_delay, ready_delay, migrate)| ToCase {
             dur,
             // with a practically unlimited duration only a completing inner future terminates the case
             inner_at: if dur >= u64::MAX - 1 { Some(inner_at.unwrap_or(7)) } else { inner_at },
             inner_ok,
             first_poll_delay,
             ready_delay,
+            migrate,
         })
 }
